@@ -70,6 +70,8 @@ def main():
         finally:
             sh("git -C /repo checkout -- .")
             sh("git -C /repo clean -fdq")
+            # the regenerated tables must describe the unchanged tree again
+            sh("/verif/bin/kvqlextract -repo /repo -out /verif/lean/Kvql/Generated")
             for ev, txt in saved.items():
                 open(ev, "w").write(txt)
     dst = f"/verif/seeded/{name}"
